@@ -523,4 +523,118 @@ theorem columnize_spec (off : Nat) : ∀ (evs : List Ev) (a : List (Nat × Nat))
       refine ⟨col, ?_, fun t c ht => h2 t c (hl t c ht)⟩
       simp only [columnize, h, List.map_cons, h1, Ev.shift, h2 _ _ he]
 
+/-! ### well-formed task streams make `PairsOK` hold for the merged stream -/
+
+/-- well-formedness of one task's stream that makes `PairsOK` hold for the merged stream -/
+def TaskOK : List Rec → Prop
+  | r :: x :: rest =>
+    (r.exit = false → x.exit = true → x.depth = r.depth → x.addr = r.addr ∧ r.time ≤ x.time) ∧ TaskOK (x :: rest)
+  | _ => True
+
+theorem taskOK_tail {r : Rec} {t : List Rec} (h : TaskOK (r :: t)) : TaskOK t := by
+  cases t with
+  | nil => simp [TaskOK]
+  | cons x t => exact h.2
+
+theorem pairsOK_mergeFuel (n : Nat) : ∀ ts : List (List Rec), (∀ j, TaskOK (nth ts j)) → PairsOK (mergeFuel n ts) := by
+  induction n with
+  | zero => intro ts _; simp [mergeFuel, PairsOK]
+  | succ n ih =>
+    intro ts hok
+    rcases mergeFuel_succ n ts with ⟨he, _⟩ | ⟨i, r, rest, hi, _, he⟩
+    · rw [he]; simp [PairsOK]
+    · have hok' : ∀ j, TaskOK (nth (ts.set i rest) j) := by
+        intro j
+        rw [nth_set]
+        split
+        · have := hok i; rw [hi] at this; exact taskOK_tail this
+        · exact hok j
+      have ih' := ih (ts.set i rest) hok'
+      rw [he]
+      cases n with
+      | zero => simp [mergeFuel, PairsOK]
+      | succ n =>
+        rcases mergeFuel_succ n (ts.set i rest) with ⟨he2, _⟩ | ⟨j, x, rest2, hj, _, he2⟩
+        · rw [he2]; simp [PairsOK]
+        · rw [he2] at ih' ⊢
+          refine ⟨?_, ih'⟩
+          intro hr hf
+          have hf' : (j = i ∧ x.depth = r.depth) ∧ x.exit = true := by
+            simpa [foldsWith, Bool.and_eq_true] using hf
+          obtain ⟨⟨rfl, hd⟩, hx⟩ := hf'
+          rw [nth_set] at hj
+          simp only [true_and, lt_length_of_nth hi, if_true] at hj
+          have := hok j
+          rw [hi, hj] at this
+          exact this.1 hr hx hd
+
+mutual
+  /-- no call returns before it was entered -/
+  def Call.timed : Call → Prop
+    | .node _ tin tout kids => tin ≤ tout ∧ kids.timed
+  def Calls.timed : Calls → Prop
+    | .nil => True
+    | .cons c rest => c.timed ∧ rest.timed
+end
+
+theorem taskOK_append {a b : List Rec} (ha : TaskOK a) (hb : TaskOK b)
+    (hl : ∀ r, a.getLast? = some r → r.exit = true) : TaskOK (a ++ b) := by
+  induction a with
+  | nil => simpa using hb
+  | cons r a ih =>
+    cases a with
+    | nil =>
+      have hr : r.exit = true := hl r (by simp)
+      cases b with
+      | nil => simp [TaskOK]
+      | cons x b => exact ⟨by simp [hr], hb⟩
+    | cons r2 a =>
+      refine ⟨ha.1, ?_⟩
+      exact ih ha.2 (fun q hq => hl q (by simpa using hq))
+
+mutual
+  theorem recsCall_last (d : Nat) : (c : Call) → ∀ r, (recsCall d c).getLast? = some r → r.exit = true
+    | .node a tin tout kids => by
+      intro r h
+      have e : recsCall d (.node a tin tout kids) =
+          ({ time := tin, exit := false, depth := d, addr := a } :: recsCalls (d + 1) kids) ++
+            [{ time := tout, exit := true, depth := d, addr := a }] := by simp [recsCall]
+      rw [e, List.getLast?_concat] at h
+      simp only [Option.some.injEq] at h
+      subst h; rfl
+  theorem recsCalls_last (d : Nat) : (cs : Calls) → ∀ r, (recsCalls d cs).getLast? = some r → r.exit = true
+    | .nil => by intro r h; simp [recsCalls] at h
+    | .cons c rest => by
+      intro r h
+      simp only [recsCalls, List.getLast?_append] at h
+      cases h2 : (recsCalls d rest).getLast? with
+      | none =>
+        rw [h2, Option.none_or] at h
+        exact recsCall_last d c r h
+      | some q =>
+        rw [h2, Option.some_or, Option.some.injEq] at h
+        subst h; exact recsCalls_last d rest q h2
+end
+
+mutual
+  /-- the record stream of completed calls is well-formed in the sense of `TaskOK` -/
+  theorem taskOK_recsCall (d : Nat) : (c : Call) → c.timed → TaskOK (recsCall d c)
+    | .node a tin tout kids, h => by
+      have hk := taskOK_recsCalls (d + 1) kids h.2
+      have hrest : TaskOK (recsCalls (d + 1) kids ++ [{ time := tout, exit := true, depth := d, addr := a }]) :=
+        taskOK_append hk (by simp [TaskOK]) (recsCalls_last (d + 1) kids)
+      simp only [recsCall]
+      rcases recsCalls_head (d + 1) kids with hn | ⟨r, rs, he, hr, _⟩
+      · subst hn
+        simp only [recsCalls, List.nil_append]
+        exact ⟨fun _ _ _ => ⟨rfl, h.1⟩, by simp [TaskOK]⟩
+      · rw [he] at hrest ⊢
+        exact ⟨by simp [hr], hrest⟩
+  theorem taskOK_recsCalls (d : Nat) : (cs : Calls) → cs.timed → TaskOK (recsCalls d cs)
+    | .nil, _ => by simp [recsCalls, TaskOK]
+    | .cons c rest, h => by
+      simp only [recsCalls]
+      exact taskOK_append (taskOK_recsCall d c h.1) (taskOK_recsCalls d rest h.2) (recsCall_last d c)
+end
+
 end Uft.Replay
